@@ -67,6 +67,9 @@ struct Seg {
     spurious: u8,
     enq_ns: u64,
     kind: SegKind,
+    /// a read that finished the previous segment may continue into this one (TCP coalescing of
+    /// back-to-back frames); false for boundaries a `Cut` asked for
+    join_prev: bool,
 }
 
 #[derive(Default)]
@@ -212,6 +215,11 @@ pub fn pipe(world: &W, label: &str, wplan: Vec<WRule>) -> (ServerEnd, ClientEnd)
 impl ClientEnd {
     /// Hands `bytes` to the pipe as one segment.
     pub fn send_seg(&self, bytes: Vec<u8>, gate: Gate, spurious: u8) {
+        self.send_seg_join(bytes, gate, spurious, false);
+    }
+
+    /// Like `send_seg`; with `join_prev` a single server read may span the previous segment and this one.
+    pub fn send_seg_join(&self, bytes: Vec<u8>, gate: Gate, spurious: u8, join_prev: bool) {
         let now = self.world.lock().unwrap().now_ns();
         let mut st = self.st.lock().unwrap();
         st.sent_total += bytes.len() as u64;
@@ -223,6 +231,7 @@ impl ClientEnd {
             spurious,
             enq_ns: now,
             kind: SegKind::Data,
+            join_prev,
         });
         if let Some(w) = st.read_waker.take() {
             w.wake();
@@ -250,6 +259,7 @@ impl ClientEnd {
             spurious: 0,
             enq_ns: now,
             kind: SegKind::Eof(kind),
+            join_prev: false,
         });
         if let Some(w) = st.read_waker.take() {
             w.wake();
@@ -384,6 +394,53 @@ impl AsyncRead for ServerEnd {
                         st.inq.pop_front();
                     }
                     st.read_total += n as u64;
+                    // coalescing: the same read continues into following segments that are joinable
+                    // and already available (no gate to wait for, no spurious Pending owed)
+                    let mut joined = false;
+                    while done && buf.remaining() > 0 {
+                        let last = st.last_ready_ns;
+                        let Some(next) = st.inq.front_mut() else { break };
+                        if !next.join_prev || next.spurious > 0 || !matches!(next.kind, SegKind::Data) {
+                            break;
+                        }
+                        let r = match next.ready {
+                            Some(r) => r,
+                            None => {
+                                let base = next.enq_ns.max(last);
+                                match &next.gate {
+                                    Gate::Now => ms_ceil(base),
+                                    _ => break,
+                                }
+                            }
+                        };
+                        if r > now {
+                            break;
+                        }
+                        let first_touch = next.ready.is_none();
+                        next.ready = Some(r);
+                        let rem = next.bytes.len() - next.pos;
+                        let k = rem.min(buf.remaining());
+                        buf.put_slice(&next.bytes[next.pos..next.pos + k]);
+                        next.pos += k;
+                        let len = next.bytes.len() as u64;
+                        let fin = next.pos == next.bytes.len();
+                        if first_touch {
+                            st.last_ready_ns = r;
+                            st.avail_off += len;
+                            let off = st.avail_off;
+                            st.avail.push((off, r));
+                        }
+                        st.read_total += k as u64;
+                        joined = true;
+                        if fin {
+                            st.inq.pop_front();
+                        } else {
+                            break;
+                        }
+                    }
+                    if joined {
+                        this.world.lock().unwrap().fault("c2s_frames_coalesced_in_one_read");
+                    }
                     return Poll::Ready(Ok(()));
                 }
                 SegKind::Eof(kind) => {
